@@ -76,6 +76,8 @@ var lintErrors = []string{
 	`set req.http.X-E = helper_0();`,
 	`set var.b = helper_1("a");`,
 	`set req.http.X-E = vcl_recv();`,
+	`set req.http.X-E = ratecounter.rc.foo.10s;`,
+	`set req.http.X-E = ratecounter.nope.bucket.10s;`,
 	`error;`,
 	`error 999 "a" "b";`,
 	`error var.i;`,
@@ -182,7 +184,7 @@ func (g *lintGen) program(nUser int) LProgram {
 	return p
 }
 
-const lintPrelude = "backend b { .host = \"127.0.0.1\"; .port = \"1\"; }\ntable t { \"a\": \"1\", }\nacl office { \"10.0.0.0\"/8; }\n"
+const lintPrelude = "backend b { .host = \"127.0.0.1\"; .port = \"1\"; }\ntable t { \"a\": \"1\", }\nacl office { \"10.0.0.0\"/8; }\nratecounter rc { }\n"
 
 // render prints the program; every statement gets First/Last line numbers (1-based).
 func (p *LProgram) render() string {
